@@ -968,13 +968,23 @@ func main() {
 			for round := 0; round < roundsPer; round++ {
 				ops := randomOps(r, k)
 				base := make([]string, k)
-				for i, o := range ops {
-					base[i] = o.run()
-					if o.model != "" && !seenModel[o.model+"\x00"+base[i]] {
-						seenModel[o.model+"\x00"+base[i]] = true
-						res.ModelOps = append(res.ModelOps, modelOp{Driver: "wire", Op: o.model, Impl: base[i], Kind: "C18 " + o.kind + " alone vs wire model"})
+				// the answer of every operation run alone: in every other round only after the
+				// concurrent runs, so that those are the first ever to see these inputs (state
+				// that the library keys by content — a name it has met, a size it has seen — is
+				// then built up concurrently, not by this loop)
+				baseAfter := round%2 == 1
+				alone := func() {
+					for i, o := range ops {
+						base[i] = o.run()
+						if o.model != "" && !seenModel[o.model+"\x00"+base[i]] {
+							seenModel[o.model+"\x00"+base[i]] = true
+							res.ModelOps = append(res.ModelOps, modelOp{Driver: "wire", Op: o.model, Impl: base[i], Kind: "C18 " + o.kind + " alone vs wire model"})
+						}
+						res.Hist[o.kind]++
 					}
-					res.Hist[o.kind]++
+				}
+				if !baseAfter {
+					alone()
 				}
 				// concurrent execution
 				stop := make(chan struct{})
@@ -997,10 +1007,11 @@ func main() {
 					yields[i] = r.Intn(4)
 				}
 				var wg sync.WaitGroup
-				var mu sync.Mutex
 				start := make(chan struct{})
+				gots := make([][]string, k)
 				for i := 0; i < k; i++ {
 					wg.Add(1)
+					gots[i] = make([]string, reps)
 					go func(i int) {
 						defer wg.Done()
 						<-start
@@ -1008,20 +1019,23 @@ func main() {
 							for y := 0; y < yields[i]; y++ {
 								runtime.Gosched()
 							}
-							got := ops[i].run()
-							if got != base[i] {
-								mu.Lock()
-								if len(res.Mismatches) < 30 {
-									res.Mismatches = append(res.Mismatches, mismatch{Kind: "C18 concurrent result differs from sequential result (" + ops[i].kind + ")",
-										Input: fmt.Sprintf("GOMAXPROCS=%d K=%d op %d: %s %s", procs, k, i, ops[i].kind, ops[i].model), Got: got, Want: base[i]})
-								}
-								mu.Unlock()
-							}
+							gots[i][rep] = ops[i].run()
 						}
 					}(i)
 				}
 				close(start)
 				wg.Wait()
+				if baseAfter {
+					alone()
+				}
+				for i := range gots {
+					for _, got := range gots[i] {
+						if got != base[i] && len(res.Mismatches) < 30 {
+							res.Mismatches = append(res.Mismatches, mismatch{Kind: "C18 concurrent result differs from sequential result (" + ops[i].kind + ")",
+								Input: fmt.Sprintf("GOMAXPROCS=%d K=%d op %d: %s %s", procs, k, i, ops[i].kind, ops[i].model), Got: got, Want: base[i]})
+						}
+					}
+				}
 				close(stop)
 				gcs.Wait()
 				res.Rounds++
